@@ -1204,6 +1204,7 @@ func templateStream(seed uint64, tier string, outDir string, props map[string]bo
 		ncases = 6000
 	}
 	var cases []string
+	distinctSeen := map[string]bool{}
 	flush := func() {
 		if len(cases) == 0 {
 			return
@@ -1224,7 +1225,10 @@ func templateStream(seed uint64, tier string, outDir string, props map[string]bo
 	for i := 0; i < ncases; i++ {
 		cs := c.oneCase(tier)
 		rep.Cases++
-		rep.Distinct++
+		if !distinctSeen[cs] {
+			distinctSeen[cs] = true
+			rep.Distinct++
+		}
 		cases = append(cases, cs)
 		if len(cases) >= perFile {
 			flush()
